@@ -4,7 +4,7 @@ from __future__ import annotations
 import ast
 
 from ..core import Ctx
-from ..match import arg, call_name, calls, facts_at, local_defs, resolve, single_def, stores
+from ..match import arg, call_name, calls, facts_at, is_param, local_defs, resolve, single_def, stores
 from ..model import AnalysisError, FuncInfo, chain, const_value, enclosing_stmt, norm, strip_cast, walk_no_nested
 
 LEVEL = "other"
@@ -15,13 +15,121 @@ EXPLANATION = (
     "normally, whose 4th argument is the static key of circuit.unverified_hop.peer (the peer selected in "
     "send_initial_create / send_extend, the only writers of unverified_hop) and whose return is dominated by a truthy "
     "crypto_auth_verify; both DH sides concatenate (ephemeral, static) in the same order; Circuit._hops is append-only "
-    "with one caller; relay-side create/extend pairing by cache number. Equality of derived keys is X25519/HKDF (trusted)."
+    "with one caller; relay-side create/extend pairing by cache number, and the relay installs relay_from_to[..] only under the "
+    "to/from circuit ids of its own popped CreateRequestCache, keyed from the origin's exit socket, under the dominating fact that "
+    "the origin circuit still is an exit socket (an established relay hop is never rewired by an answer). "
+    "Equality of derived keys is X25519/HKDF (trusted)."
 )
 
 TC = "ipv8/messaging/anonymization/community.py"
 CR = "ipv8/messaging/anonymization/crypto.py"
 CA = "ipv8/messaging/anonymization/caches.py"
 TU = "ipv8/messaging/anonymization/tunnel.py"
+
+
+# ------------------------------------------------------------------------------------ helpers (semantic recognition)
+def _snorm(e: ast.AST | None) -> str | None:
+    """norm() of an expression with typing.cast(...) wrappers removed (cast is the identity at run time)."""
+    return None if e is None else norm(strip_cast(e))
+
+
+def _rnorm(fi: FuncInfo, e: ast.AST | None) -> str | None:
+    """norm() after following single-assignment local aliases and removing casts."""
+    return None if e is None else norm(resolve(fi, e))
+
+
+def _assigned_names(st: ast.stmt) -> list[str]:
+    """Local names bound to the whole value of an assignment statement (plain, chained or annotated)."""
+    if isinstance(st, ast.Assign):
+        return [t.id for t in st.targets if isinstance(t, ast.Name)]
+    if isinstance(st, ast.AnnAssign) and isinstance(st.target, ast.Name) and st.value is not None:
+        return [st.target.id]
+    return []
+
+
+_HOP_WRITERS = ("send_initial_create", "send_extend", "_ours_on_created_extended")
+
+
+def _is_pending_hop(ctx: Ctx, fi: FuncInfo, e: ast.AST | None, site: ast.AST) -> bool:
+    """
+    Does `e`, evaluated at `site`, denote the Hop object that `circuit.unverified_hop` holds there?
+    Accepted: the attribute read itself, or a local N with exactly one definition such that every store to
+    circuit.unverified_hop in this function stores N (``circuit.unverified_hop = N`` or the chained form
+    ``circuit.unverified_hop = N = Hop(..)``), such a store has completed on every path to `site` (CFG), and no function
+    that rewrites unverified_hop is called from here.  Then N and the attribute are the same object at `site`.
+    """
+    if e is None:
+        return False
+    e = strip_cast(e)
+    if norm(e) == "circuit.unverified_hop":
+        return is_param(fi, "circuit") and not local_defs(fi, "circuit")
+    if not isinstance(e, ast.Name) or is_param(fi, e.id):
+        return False
+    d = local_defs(fi, e.id)
+    if len(d) != 1 or d[0][1] is None or d[0][2] is not None:
+        return False
+    sts = [st for st, t in stores(fi, "circuit.unverified_hop")]
+    if not sts or not is_param(fi, "circuit") or local_defs(fi, "circuit"):
+        return False
+    for st in sts:
+        if not isinstance(st, (ast.Assign, ast.AnnAssign)):
+            return False
+        same_stmt = st is d[0][0]
+        v = strip_cast(st.value) if st.value is not None else None
+        if not (same_stmt or (isinstance(v, ast.Name) and v.id == e.id)):
+            return False
+    if any(call_name(c) in _HOP_WRITERS for c in calls(fi)):
+        return False
+    cfg = ctx.cfg(fi)
+    through = [n for st in sts for n in cfg.nodes_for(st)]
+    nodes = cfg.nodes_for(site)
+    return bool(nodes) and all(cfg.must_complete(n, through) for n in nodes)
+
+
+def _old_retry_cache_dropped_before(ctx: Ctx, fi: FuncInfo, site: ast.AST) -> bool:
+    """
+    Every path entry -> site either completed ``self.request_cache.pop(RetryRequestCache, circuit.circuit_id)`` or took the
+    false edge of ``self.request_cache.has(RetryRequestCache, circuit.circuit_id)`` (there was nothing to pop).
+    """
+    cfg = ctx.cfg(fi)
+
+    def is_key(c: ast.AST, name: str) -> bool:
+        return isinstance(c, ast.Call) and chain(c.func) == f"self.request_cache.{name}" and chain(arg(c, 0)) == "RetryRequestCache" \
+            and _rnorm(fi, arg(c, 1)) == "circuit.circuit_id"
+
+    pops = [p for p in calls(fi) if is_key(p, "pop")]
+    pop_nodes = [n for p in pops for n in cfg.nodes_for(p)]
+    r = cfg.reach(cut_out_normal=pop_nodes, cut_edge=lambda u, v, lab: u.kind == "cond" and lab is False and is_key(u.ast, "has"))
+    nodes = cfg.nodes_for(site)
+    return bool(pops) and bool(nodes) and all(n not in r for n in nodes)
+
+
+def _flatten_ifexp(e: ast.AST) -> list[ast.AST]:
+    e = strip_cast(e)
+    if isinstance(e, ast.IfExp):
+        return _flatten_ifexp(e.body) + _flatten_ifexp(e.orelse)
+    return [e]
+
+
+def _is_responder_static_key(fi: FuncInfo, e: ast.AST, param: str, depth: int = 3) -> bool:
+    """
+    `e` can only evaluate to the caller-supplied static key parameter or to self.key (the community's own static key):
+    the parameter itself (rebound, if at all, only to self.key), or a local all of whose reaching definitions are such values
+    (also through conditional expressions).
+    """
+    e = strip_cast(e)
+    if norm(e) == "self.key":
+        return True
+    if not isinstance(e, ast.Name) or depth <= 0:
+        return False
+    defs = local_defs(fi, e.id)
+    if e.id == param:
+        return all(v is not None and i is None and all(norm(x) == "self.key" or (isinstance(x, ast.Name) and x.id == param)
+                                                         for x in _flatten_ifexp(v)) for _, v, i in defs)
+    if is_param(fi, e.id) or not defs:
+        return False
+    return all(v is not None and i is None and all(_is_responder_static_key(fi, x, param, depth - 1) for x in _flatten_ifexp(v))
+               for _, v, i in defs)
 
 
 def rule_identifier(ctx: Ctx) -> None:
@@ -76,13 +184,16 @@ def rule_identifier(ctx: Ctx) -> None:
         pls = calls(fi, pl)
         ok = len(ctors) == 1 and len(pls) == 1
         if ok:
-            st = enclosing_stmt(ctors[0])
-            var = st.targets[0].id if isinstance(st, ast.Assign) and isinstance(st.targets[0], ast.Name) else None
-            ok = var is not None and norm(arg(pls[0], 1)) == f"{var}.packet_identifier" and norm(arg(pls[0], 0)) == "circuit.circuit_id" \
-                and any(chain(a.func) == "self.request_cache.add" and chain(arg(a, 0)) == var for a in calls(fi))
-            # old attempt's cache is popped first (so an answer to the old attempt finds the new identifier)
-            pops = [p for p in calls(fi, "self.request_cache.pop") if chain(arg(p, 0)) == "RetryRequestCache"]
-            ok = ok and bool(pops) and pops[0].lineno < ctors[0].lineno
+            # the local(s) the new cache is bound to (plain / chained / annotated assignment), each assigned once
+            names = [v for v in _assigned_names(enclosing_stmt(ctors[0])) if len(local_defs(fi, v)) == 1]
+            ident = strip_cast(arg(pls[0], 1))
+            ok = isinstance(ident, ast.Attribute) and ident.attr == "packet_identifier" and \
+                isinstance(strip_cast(ident.value), ast.Name) and strip_cast(ident.value).id in names \
+                and _rnorm(fi, arg(pls[0], 0)) == "circuit.circuit_id" \
+                and any(chain(a.func) == "self.request_cache.add" and chain(strip_cast(arg(a, 0))) in names for a in calls(fi))
+            # old attempt's cache is popped first (so an answer to the old attempt finds the new identifier): on every path
+            # to the construction of the new cache the old one was popped or there was none (CFG, not line order)
+            ok = ok and _old_retry_cache_dropped_before(ctx, fi, ctors[0])
         ctx.check(ok, "identifier-match", fi, fi.node, f"{meth}: pops the old retry cache, registers a new one and sends its identifier",
                   f"{meth} does not bind the request to a fresh retry cache identifier")
 
@@ -139,8 +250,8 @@ def rule_verify_before_accept(ctx: Ctx) -> None:
                   "the hop appended is not the circuit's own unverified hop")
     # ---- selected-peer-key
     for c in vcalls:
-        a = [norm(x) for x in c.args]
-        ok = len(a) == 4 and a[0] == "hop.dh_secret" and a[1] == f"{payload}.key" and a[2] == f"{payload}.auth" \
+        a = [_snorm(x) for x in c.args]  # typing.cast(..) around an argument is the identity
+        ok = len(a) == 4 and not c.keywords and a[0] == "hop.dh_secret" and a[1] == f"{payload}.key" and a[2] == f"{payload}.auth" \
             and a[3] == "hop.peer.public_key.get_crypt_pk()" and ok_hop and ok_circ
         ctx.check(ok, "selected-peer-key", fi, c, "verify(hop.dh_secret, payload.key, payload.auth, hop.peer.public_key.get_crypt_pk())",
                   "the DH verification is not bound to the static key of the peer the originator selected for this hop")
@@ -156,8 +267,10 @@ def rule_verify_before_accept(ctx: Ctx) -> None:
         for f in facts:
             if f.op == "truthy" and f.pos and isinstance(f.left, ast.Call) and chain(f.left.func) == "crypto_auth_verify":
                 av = f.left
-        ok = av is not None and norm(av.args[0]) == p[2] and norm(av.args[2]) == p[1] and \
-            isinstance(av.args[1], ast.Subscript) and chain(av.args[1].value) == chain(r.value) and norm(av.args[1].slice) == ":32"
+        mac_key = resolve(vf, av.args[1]) if av is not None and len(av.args) == 3 else None  # `auth_key = secret[:32]` alias accepted
+        ok = mac_key is not None and _snorm(av.args[0]) == p[2] and _snorm(av.args[2]) == p[1] and \
+            isinstance(mac_key, ast.Subscript) and isinstance(strip_cast(r.value), ast.Name) and \
+            chain(mac_key.value) == chain(strip_cast(r.value)) and len(local_defs(vf, chain(mac_key.value))) == 1 and norm(mac_key.slice) == ":32"
         ctx.check(ok, "verify-before-accept", vf, r, "shared secret returned only under truthy crypto_auth_verify(auth, secret[:32], dh_received)",
                   "verify_and_generate_shared_secret can return a secret without a successful authenticator check", [str(f) for f in facts])
         ss = resolve(vf, r.value)
@@ -176,12 +289,20 @@ def rule_verify_before_accept(ctx: Ctx) -> None:
     ctx.anchor(rets, "return in generate_diffie_shared_secret")
     for r in rets:
         ss = resolve(gf, r.value.elts[0])
-        recv = gf.params()[1]
-        ok = isinstance(ss, ast.BinOp) and isinstance(ss.op, ast.Add) and norm(ss.left) == f"tmp_key.diffie_hellman({recv})" \
-            and norm(ss.right) == f"key.diffie_hellman({recv})"
-        au = resolve(gf, r.value.elts[2])
-        ok_au = isinstance(au, ast.Call) and chain(au.func) == "crypto_auth" and norm(au.args[0]) == f"{chain(r.value.elts[0])}[:32]" \
-            and norm(resolve(gf, au.args[1])) == "tmp_key.get_crypt_pk()" and norm(resolve(gf, r.value.elts[1])) == "tmp_key.get_crypt_pk()"
+        recv, keyp = gf.params()[1], gf.params()[2]
+        ok = len(r.value.elts) == 3 and isinstance(ss, ast.BinOp) and isinstance(ss.op, ast.Add) and not local_defs(gf, recv)
+        if ok:
+            eph, sta = resolve(gf, ss.left), resolve(gf, ss.right)
+            ok = norm(eph) == f"tmp_key.diffie_hellman({recv})" and isinstance(sta, ast.Call) and call_name(sta) == "diffie_hellman" \
+                and len(sta.args) == 1 and not sta.keywords and norm(sta.args[0]) == recv \
+                and _is_responder_static_key(gf, sta.func.value, keyp)
+        tk = single_def(gf, "tmp_key")
+        ok = ok and tk is not None  # one ephemeral key object: the one in the DH is the one whose public half is authenticated
+        au = resolve(gf, r.value.elts[2]) if ok else None
+        ok_au = isinstance(au, ast.Call) and chain(au.func) == "crypto_auth" and len(au.args) == 2 \
+            and isinstance(strip_cast(r.value.elts[0]), ast.Name) and len(local_defs(gf, chain(strip_cast(r.value.elts[0])))) == 1 \
+            and _rnorm(gf, au.args[0]) == f"{chain(strip_cast(r.value.elts[0]))}[:32]" \
+            and _rnorm(gf, au.args[1]) == "tmp_key.get_crypt_pk()" and _rnorm(gf, r.value.elts[1]) == "tmp_key.get_crypt_pk()"
         ctx.check(ok and ok_au, "selected-peer-key", gf, r, "responder: secret = DH(ephemeral, X) + DH(static, X); auth over secret[:32] and its ephemeral key",
                   "responder side of the handshake does not mirror the originator's (ephemeral, static) construction")
 
@@ -199,8 +320,9 @@ def rule_unverified_hop_writers(ctx: Ctx) -> None:
                 if q == "Circuit.__init__" or q == "TunnelCommunity._ours_on_created_extended":
                     ok = isinstance(st, (ast.Assign, ast.AnnAssign)) and isinstance(st.value, ast.Constant) and st.value.value is None
                 elif q == "TunnelCommunity.send_initial_create":
-                    v = st.value
-                    ok = isinstance(v, ast.Call) and chain(v.func) == "Hop" and norm(resolve(fi, arg(v, 0))) == "candidate_peers[0]"
+                    v = resolve(fi, st.value)
+                    ok = isinstance(v, ast.Call) and chain(v.func) == "Hop" and norm(resolve(fi, arg(v, 0, "peer"))) == "candidate_peers[0]" \
+                        and not local_defs(fi, "candidate_peers")
                 elif q == "TunnelCommunity.send_extend":
                     v = resolve(fi, st.value)
                     ok = isinstance(v, ast.Call) and chain(v.func) == "Hop"
@@ -216,12 +338,15 @@ def rule_unverified_hop_writers(ctx: Ctx) -> None:
     # the extend request names the same key that will be verified
     se = repo.method("TunnelCommunity", "send_extend", TC)
     for c in calls(se, "ExtendPayload"):
-        ok = norm(arg(c, 2)) == "circuit.unverified_hop.public_key_bin" and norm(arg(c, 3)) == "circuit.unverified_hop.dh_first_part"
+        a2, a3 = strip_cast(arg(c, 2)), strip_cast(arg(c, 3))
+        ok = isinstance(a2, ast.Attribute) and a2.attr == "public_key_bin" and _is_pending_hop(ctx, se, a2.value, c) \
+            and isinstance(a3, ast.Attribute) and a3.attr == "dh_first_part" and _is_pending_hop(ctx, se, a3.value, c)
         ctx.check(ok, "selected-peer-key", se, c, "extend request carries unverified_hop's key and DH part",
                   "the extend request names a different node than the one whose key will be verified")
     sic = repo.method("TunnelCommunity", "send_initial_create", TC)
     for c in calls(sic, "CreatePayload"):
-        ok = norm(arg(c, 3)) == "circuit.unverified_hop.dh_first_part"
+        a3 = strip_cast(arg(c, 3))
+        ok = isinstance(a3, ast.Attribute) and a3.attr == "dh_first_part" and _is_pending_hop(ctx, sic, a3.value, c)
         ctx.check(ok, "selected-peer-key", sic, c, "create request carries unverified_hop's DH part", "create carries another DH part")
         snd = [s for s in calls(sic, "self.send_cell")]
         ctx.check(bool(snd) and norm(arg(snd[0], 0)) == "first_hop.address", "selected-peer-key", sic, c,
@@ -303,9 +428,73 @@ def rule_relay_pairing(ctx: Ctx) -> None:
             and norm(arg(p, 1)) == "payload.identifier"
         ctx.check(ok, "relay-pairing", oc, p, "created consumed by payload.identifier only when such a cache exists (has before pop)",
                   "a created answer is paired with a pending extend without checking the cache exists / by another key", [str(f) for f in facts])
+    # ---- the routes installed for the new hop are those of the pending extend *as the relay stored it*
+    # locals bound (once) to the popped CreateRequestCache
+    req_names = {v for p in pops for v in _assigned_names(enclosing_stmt(p)) if len(local_defs(oc, v)) == 1}
+
+    def req_attr(e: ast.AST | None) -> str | None:
+        """attribute name if e is (an alias of) <popped request>.<attr>"""
+        e = resolve(oc, e) if e is not None else None
+        if isinstance(e, ast.Attribute) and isinstance(strip_cast(e.value), ast.Name) and strip_cast(e.value).id in req_names:
+            return e.attr
+        return None
+
+    def from_exit_socket_keys(e: ast.AST | None) -> bool:
+        """e is self.exit_sockets[<request>.from_circuit_id].hop.keys (the keys negotiated with the circuit owner's side)"""
+        e = resolve(oc, e) if e is not None else None
+        if not (isinstance(e, ast.Attribute) and e.attr == "keys" and isinstance(e.value, ast.Attribute) and e.value.attr == "hop"):
+            return False
+        sock = resolve(oc, e.value.value)
+        if isinstance(sock, ast.Subscript):
+            return chain(sock.value) == "self.exit_sockets" and req_attr(sock.slice) == "from_circuit_id"
+        return isinstance(sock, ast.Call) and chain(sock.func) == "self.exit_sockets.get" and req_attr(arg(sock, 0)) == "from_circuit_id"
+
+    def still_exit_socket(f) -> bool:
+        """dominating fact: the origin circuit id of the pending extend is (still) an exit socket of this relay"""
+        if f.op == "in" and f.pos:
+            return req_attr(f.left) == "from_circuit_id" and chain(f.right) == "self.exit_sockets"
+        if f.op == "truthy" and f.pos or f.op == "is" and not f.pos and const_value(f.right) is None:
+            v = resolve(oc, f.left)
+            return isinstance(v, ast.Call) and chain(v.func) == "self.exit_sockets.get" and req_attr(arg(v, 0)) == "from_circuit_id" \
+                and (len(v.args) == 1 or const_value(v.args[1]) is None) and isinstance(f.left, ast.Name)
+        return False
+
+    expect = {"to_circuit_id": ("from_circuit_id", "peer", "BACKWARD"), "from_circuit_id": ("to_circuit_id", "to_peer", "FORWARD")}
+    seen = set()
+    routes = stores(oc, "self.relay_from_to[]")
+    for st, t in routes:
+        facts = facts_at(cfg, st)
+        ka = req_attr(t.slice) if isinstance(t, ast.Subscript) else None
+        v = resolve(oc, st.value) if isinstance(st, ast.Assign) else None
+        ok = ka in expect and isinstance(v, ast.Call) and chain(v.func) == "RelayRoute"
+        if ok:
+            seen.add(ka)
+            other, peer, direction = expect[ka]
+            hp = resolve(oc, arg(v, 1, "hop"))
+            ok = req_attr(arg(v, 0, "circuit_id")) == other and isinstance(hp, ast.Call) and chain(hp.func) == "Hop" \
+                and req_attr(arg(hp, 0, "peer")) == peer and from_exit_socket_keys(arg(hp, 1, "keys")) \
+                and _snorm(arg(v, 2, "direction")) == direction
+        ok = ok and any(still_exit_socket(f) for f in facts)
+        ctx.check(ok, "relay-pairing", oc, st,
+                  "relay route registered under the pending extend's own to/from circuit id (from the popped CreateRequestCache), "
+                  "keyed from the origin's exit socket, only while the origin circuit still is an exit socket here",
+                  "on_created installs relay_from_to[...] under a circuit id taken from the answer (or not from the relay's own "
+                  "CreateRequestCache), or while the origin circuit is no longer an exit socket: a created answer carrying a foreign "
+                  "circuit id, or one that answers an earlier abandoned extend attempt, rewires an already established hop of a circuit "
+                  "whose originator is keyed with (and lists) another peer", [str(f) for f in facts])
+    ctx.check(seen == set(expect) and len(routes) == 2, "relay-pairing", oc, oc.node,
+              "on_created registers exactly the backward route under to_circuit_id and the forward route under from_circuit_id",
+              "on_created does not register exactly one backward and one forward route for the pending extend")
+    # local name(s) of the backward route (the value stored under to_circuit_id); its circuit id is request.from_circuit_id (checked above)
+    bw_names = {st.value.id for st, t in routes if isinstance(t, ast.Subscript) and req_attr(t.slice) == "to_circuit_id"
+                and isinstance(st, ast.Assign) and isinstance(st.value, ast.Name) and len(local_defs(oc, st.value.id)) == 1}
+    pl = oc.params()[2]
     for e in calls(oc, "ExtendedPayload"):
-        a = [norm(x) for x in e.args]
-        ok = a == ["bw_relay.circuit_id", "request.extend_identifier", "payload.key", "payload.auth", "payload.candidates_enc"]
+        a0 = resolve(oc, arg(e, 0)) if e.args else None
+        origin_ok = req_attr(a0) == "from_circuit_id" or (
+            isinstance(a0, ast.Attribute) and a0.attr == "circuit_id" and isinstance(a0.value, ast.Name) and a0.value.id in bw_names)
+        ok = len(e.args) == 5 and not e.keywords and origin_ok and req_attr(e.args[1]) == "extend_identifier" and not local_defs(oc, pl) \
+            and [_rnorm(oc, x) for x in e.args[2:]] == [f"{pl}.key", f"{pl}.auth", f"{pl}.candidates_enc"]
         ctx.check(ok, "relay-pairing", oc, e, "extended answer = (origin circuit, extend identifier, key, auth, candidates) forwarded unchanged",
                   "the relay alters identifier or key material when forwarding created as extended")
 
@@ -368,6 +557,22 @@ WITNESSES = [
     {"name": "relay pairs created by circuit id", "file": TC, "rule": "relay-pairing",
      "old": "        if self.request_cache.has(CreateRequestCache, payload.identifier):\n            request = self.request_cache.pop(CreateRequestCache, payload.identifier)",
      "new": "        if self.request_cache.has(CreateRequestCache, payload.identifier):\n            request = self.request_cache.pop(CreateRequestCache, payload.identifier % 65536)"},
+    {"name": "relay route registered under the circuit id of the answer", "file": TC, "rule": "relay-pairing",
+     "old": "            self.relay_from_to[request.to_circuit_id] = bw_relay\n",
+     "new": "            self.relay_from_to[circuit_id] = bw_relay\n"},
+    {"name": "established relay rewired by a late created", "file": TC, "rule": "relay-pairing",
+     "old": "            if request.from_circuit_id not in self.exit_sockets:\n                self.logger.info(\"Created for unknown exit socket %s\", request.from_circuit_id)\n                return\n            session_keys = self.exit_sockets[request.from_circuit_id].hop.keys\n",
+     "new": "            if request.from_circuit_id not in self.exit_sockets and request.from_circuit_id not in self.relay_from_to:\n                self.logger.info(\"Created for unknown exit socket %s\", request.from_circuit_id)\n                return\n            session_keys = (self.exit_sockets.get(request.from_circuit_id) or self.relay_from_to[request.from_circuit_id]).hop.keys\n"},
+    {"name": "create carries the DH part of a hop that is not (always) the pending hop", "rule": "selected-peer-key", "edits": [
+        {"file": TC,
+         "old": "        circuit.unverified_hop = Hop(first_hop, flags=self.candidates.get(first_hop))\n        circuit.unverified_hop.dh_secret, circuit.unverified_hop.dh_first_part = self.crypto.generate_diffie_secret()\n",
+         "new": "        new_hop = Hop(first_hop, flags=self.candidates.get(first_hop))\n        new_hop.dh_secret, new_hop.dh_first_part = self.crypto.generate_diffie_secret()\n        if circuit.unverified_hop is None:\n            circuit.unverified_hop = new_hop\n"},
+        {"file": TC,
+         "old": "                                                        circuit.unverified_hop.dh_first_part))",
+         "new": "                                                        new_hop.dh_first_part))"}]},
+    {"name": "old retry cache not popped on every path before the new attempt", "file": TC, "rule": "identifier-match",
+     "old": "        if self.request_cache.has(RetryRequestCache, circuit.circuit_id):\n            self.request_cache.pop(RetryRequestCache, circuit.circuit_id)\n            self.logger.info(\"Retrying first hop",
+     "new": "        if self.request_cache.has(RetryRequestCache, circuit.circuit_id) and max_tries > 1:\n            self.request_cache.pop(RetryRequestCache, circuit.circuit_id)\n            self.logger.info(\"Retrying first hop"},
     {"name": "relay substitutes key material", "file": TC, "rule": "relay-pairing",
      "old": "                           ExtendedPayload(bw_relay.circuit_id, request.extend_identifier,\n                                           payload.key, payload.auth, payload.candidates_enc))",
      "new": "                           ExtendedPayload(bw_relay.circuit_id, payload.identifier,\n                                           payload.key, payload.auth, payload.candidates_enc))"},
